@@ -2,7 +2,8 @@
 with the reason 'check not built yet' until their check lands (kept current at every commit)."""
 
 NOTE = ("bounded scope only (declared lattices/catalogues/depths); exact Fraction/integer oracle in mc/exact.py, mc/oracle.py and the "
-        "comparators in mc/compare.py are trusted; numpy/LAPACK trusted; predicates judged only away from the 1e-8 tolerance band")
+        "comparators in mc/compare.py are trusted; numpy/LAPACK trusted; predicates judged only away from the 1e-8 tolerance band; every "
+        "counterexample configuration recorded under replays/ is re-run in both tiers (family regressions)")
 TECH = "exhaustive small-scope enumeration of the real implementation against an exact reference model (explicit-state explorer written for this task)"
 
 CHECKS = {
@@ -22,7 +23,7 @@ CHECKS = {
             "checked on all pairs of lattice points / lines / planes (true exactly for exact multiples, reflexive, symmetric), 3D lines, conics, "
             "transformations and collections; polygon membership and area under all sign patterns of the vertex weights.",
             NOTE, "exhaustive metamorphic enumeration (operation x argument position x scale factor x configuration) on the real implementation", "DESIGN.md section 5, C03"),
-    "C04": ("Every catalogue operation that accepts collections x collection shapes (1,), (2,), (3,), (2,2), (1,3) x every single/collection "
+    "C04": ("Every catalogue operation that accepts collections x collection shapes (1,), (2,), (3,), (2,2), (1,3) (thorough: also (4,), (2,3), (3,1), (2,1,2), (1,1) and windows of every second configuration) x every single/collection "
             "assignment of the arguments x every window of consecutive base configurations: each position of the collection result must equal the "
             "library's own single-object result (classes, duality flags, values; exceptions must correspond); integer indexing c[i], c[i,j], c[-i], "
             "c[i][j] and iteration of every collection class (incl. dual quadric collections) must yield the element class with equal coordinates, "
@@ -91,20 +92,20 @@ CHECKS = {
             "line-direction, all pairs of lattice planes, concurrent 3D lines; invariance under rational isometries. Oracles are closed forms evaluated "
             "from exact rationals.",
             NOTE, TECH, "DESIGN.md section 5, C09"),
-    "C06": ("Explicit-state BFS over words in {s, t, s^-1, t^-1} (depth 4 quick / 5 thorough) for pairs of exact generator matrices (shear, swap, "
+    "C06": ("Explicit-state BFS over words in {s, t, s^-1, t^-1} (depth 4 quick / 5-6 thorough) for pairs of exact generator matrices (shear, swap, "
             "projective, det 2, det -3, rational rotation, translation, complex unitary / phase-permutation, integer-dtype matrices) in 2D and 3D; "
             "state = canonical exact matrix of the word; at every transition the real letter is applied to the real objects of the parent state "
             "(19-20 object kinds incl. dual quadrics, polytopes, collections) and compared with the exact action of the word: stepwise vs composed "
-            "application, inverse round trip, class preservation, cached _line/_plane; t**k for k in -12..12 (thorough -20..20), collections of transformations.",
+            "application, inverse round trip, class preservation, cached _line/_plane (tolerances scaled by the exact condition number of deep words); t**k for k in -12..12 (the library evaluates powers as one k-operand einsum; 13 takes minutes), collections of transformations composed with single transformations and with each other, also with two axes; thorough: every generator pair at depth 5 (complex pairs 4), five pairs at depth 6.",
             NOTE, "explicit-state breadth-first search over transformation words on the real implementation with an exact rational group model", "DESIGN.md section 5, C06"),
     "C07": ("Every generator (non-isometries and integer-dtype matrices included) x every general-position configuration of each join/meet kind: "
             "t*op(args) and op(t*args) both equal the exact image of the exact span/intersection; incidence matrices (line/plane/3D-line x point, "
             "plane x line) before and after transformation equal the exact incidence; quadric contains / is_tangent (point and dual quadrics) on "
-            "lattice points and hyperplanes; cross ratios of points, pencils and from_point forms; polytope vertex order.",
+            "lattice points and hyperplanes (also under similarities with factor 1e-3 and 1e3); cross ratios of points, pencils and from_point forms; polytope vertex order.",
             NOTE, TECH, "DESIGN.md section 5, C07"),
     "C08": ("translation over all lattice offsets x point forms (normalised / scaled / negative representative), rotation(a) for 30 angles incl. "
             "additivity over all pairs, rotation(a, axis) for all 124 lattice axis directions (orthogonal, det 1, axis fixed, trace, turn angle, "
-            "additivity, opposite axis), scaling, reflection for every lattice mirror of {-2..2}^3 / {-1,0,1}^4 against the exact Householder map "
+            "additivity, opposite axis) and for unit vectors rounded to 5-6 digits, scaling, reflection for every lattice mirror (five real and complex representatives each) of {-2..2}^3 / {-1,0,1}^4 against the exact Householder map "
             "(involution, fixed points, agreement with mirror), from_points over all general-position 4-frames of the 3x3 lattice (both directions) "
             "and 5-frames in 3D, from_points_and_conics over lattice-point triples of four conics.",
             NOTE, TECH, "DESIGN.md section 5, C08"),
@@ -116,7 +117,7 @@ CHECKS = {
             "array; transpose (all permutations and cycles, rank<=4), expand_dims (all axes), copy.",
             NOTE, "exhaustive enumeration of an index-expression grammar and operand pairings on the real implementation against numpy-validated reference semantics", "DESIGN.md section 5, C19"),
     "C05": ("Explicit-state BFS over diagram-building programs (add_node / add_edge over a universe of 10-12 tensor objects incl. collections, "
-            "a copy() twin and a dimension-3 tensor; every ordered pair, self edges and repeated edges; depth 3 quick / 4 thorough) with a reference "
+            "a copy() twin and a dimension-3 tensor; every ordered pair, self edges and repeated edges; depth 3 quick / 4 thorough, programs containing a rejected edge to depth 3) with a reference "
             "model of the bookkeeping stepped in lock-step: error conformance at every transition, calculate() compared entry by entry with an "
             "independent label/union-find contraction, index types, constructor form; epsilon(n) n<=6/8 and delta(n,p) compared entry by entry "
             "with cycle-parity / Leibniz-determinant definitions; tensor_product and ** against the diagrams they denote.",
@@ -124,11 +125,13 @@ CHECKS = {
     "C01": ("Every configuration of every supported join/meet arity and kind (2D pairs over {-2..2}^3, complex pairs, 3D pairs over {-1,0,1}^4, "
             "triples and 4-tuples over fixed point alphabets, collection layouts flat/grid/length-1/single-first/single-last) is executed on the "
             "real join/meet and the result compared with the exact span/intersection (integer/Fraction subspace algebra): class, tensor type, "
-            "projective equality, argument order, un-normalised result, method/constructor forms, co-/contravariant line forms, round trips.",
+            "projective equality, argument order, un-normalised result, method/constructor forms, co-/contravariant line forms, round trips; the 3- and 4-vector "
+            "configurations again with 21-bit dyadic coordinates (exact integer collineation), where the contractions round.",
             NOTE, TECH, "DESIGN.md section 5, C01"),
     "C02": ("The same enumerations without the general-position filter: the exact rank/coplanarity classification of every configuration "
             "(independent / dependent / skew / zero vector / aliased argument) predicts LinearDependenceError, NotCoplanar or no exception; "
-            "for collections the dependent_values mask is compared bit for bit, incl. all 2^m masks for m<=4 by position.",
+            "for collections the dependent_values mask is compared bit for bit, incl. all 2^m masks for m<=4 by position; dependent and skew "
+            "configurations with 21-bit dyadic coordinates (rounding noise instead of exact zeros) must raise as well.",
             NOTE, TECH, "DESIGN.md section 5, C02"),
     "C20": ("Every matrix of the declared integer families (n=2..5) is pushed through det/adjugate/inv on both sides of the size>=n*n*64 "
             "switch, in int/float/complex, and compared with an exact integer cofactor oracle; null_space/orth over all {-1,0,1} matrices "
